@@ -108,9 +108,21 @@ def _do_op(obj, op):
 
 
 def _observe(obj):
-    d = obj.model_dump()
-    return {"dump": mc.canon(mc.enc(d)), "fs": [f for f in mc.FIELD_NAMES if f in obj.model_fields_set],
-            "viol": mc.spec_violation(d)}
+    """dump, fields-set and the oracle's verdict; an object whose dump is not even of the declared shape
+    (possible only if validation was bypassed) is reported as such instead of crashing the harness"""
+    try:
+        d = obj.model_dump()
+    except Exception as e:  # noqa: BLE001
+        return {"dump": f"model_dump raised {type(e).__name__}", "fs": [], "viol": "malformed-dump"}
+    try:
+        dump = mc.canon(mc.enc(d))
+    except Exception as e:  # noqa: BLE001
+        dump = f"not JSON-native: {type(e).__name__}: {e}"
+    try:
+        viol = mc.spec_violation(d)
+    except Exception:  # noqa: BLE001
+        viol = "malformed-dump"
+    return {"dump": dump, "fs": [f for f in mc.FIELD_NAMES if f in obj.model_fields_set], "viol": viol}
 
 
 def impl_obs(case):
